@@ -75,6 +75,11 @@ pub struct World {
     pub max_step: Duration,
     /// commands taken from the manager's queue inside a poll and not yet handled
     pending: VecDeque<PeerCmd>,
+    /// schedule control at manager-step granularity: close this connection (remote side) right after the manager has
+    /// handled the next PieceDone - i.e. before the other tasks have seen the resulting broadcast
+    pub close_on_piece_done: Option<usize>,
+    /// connection tasks the scheduler does not run for the moment (a legal schedule: a task may be delayed arbitrarily)
+    pub frozen: std::collections::BTreeSet<usize>,
     next_peer: usize,
 }
 
@@ -93,6 +98,8 @@ impl World {
             activity: std::rc::Rc::new(std::cell::Cell::new(0)),
             max_step: Duration::from_secs(5),
             pending: VecDeque::new(),
+            close_on_piece_done: None,
+            frozen: std::collections::BTreeSet::new(),
             next_peer: 0,
         }
     }
@@ -303,7 +310,11 @@ impl World {
     fn poll_handlers(&mut self, cx: &mut Context<'_>) -> bool {
         let now = self.now();
         let mut completed = false;
-        for conn in self.conns.iter_mut() {
+        let frozen = self.frozen.clone();
+        for (ci, conn) in self.conns.iter_mut().enumerate() {
+            if frozen.contains(&ci) {
+                continue;
+            }
             if let Some(fut) = conn.fut.as_mut() {
                 let r = std::panic::catch_unwind(std::panic::AssertUnwindSafe(|| fut.as_mut().poll(cx)));
                 match r {
@@ -424,6 +435,11 @@ impl World {
                 Err(p) => {
                     self.manager_dead = Some(format!("manager panicked on {} from {}: {}", kind, addr, p));
                 }
+            }
+        }
+        if kind == "PieceDone" {
+            if let Some(c) = self.close_on_piece_done.take() {
+                self.close(c);
             }
         }
         let snap_after = self.session.verif_snapshot();
